@@ -813,6 +813,25 @@ def main(tier: str, seed: int) -> int:
         n_scen += 1
         traces += _restrict_node_set_traces(cfg, trs, notes)
         chk.add_case({"scenario": label})
+        if game is not None and label.startswith("probe/operating_state_"):
+            # the same declaration through the environment's door, after a reset (what an RL library trains on)
+            from primaite.session.environment import PrimaiteGymEnv
+
+            ecfg = copy.deepcopy(cfg)
+            if not ecfg.get("agents"):
+                ecfg["agents"] = [scenarios.proxy_agent({0: {"action": "do-nothing", "options": {}}})]
+            try:
+                env = PrimaiteGymEnv(env_config=copy.deepcopy(ecfg))
+                env.reset(seed=1)
+                etrs, _g = inventory_traces(label + "#after_env_reset", ecfg, "probe", game=env.game)
+                env.close()
+            except Exception as ex:  # noqa
+                etrs = [{"cfg": {"scenario": label + "#after_env_reset", "host": rc.NET, "type": "", "scope": "net"},
+                         "ev": [_ev("Raised", exc=type(ex).__name__)],
+                         "meta": {"scenario": label + "#after_env_reset", "exception": f"{type(ex).__name__}: {str(ex)[:300]}"},
+                         "stimulus": {"scenario": label, "origin": "probe"}}]
+            traces += etrs
+            chk.add_case({"scenario": label + "#after_env_reset"})
         if game is not None and "#episode" not in label and (thorough or _n_nodes(cfg) <= 15):
             # the same file with its node list and its link list written in the opposite order: the same network is declared
             rcfg = copy.deepcopy(cfg)
